@@ -43,6 +43,79 @@ Theorem C18_normalize_unit :
 Proof. exact normalize_unit_at. Qed.
 Print Assumptions C18_normalize_unit.
 
+(* the momentum update is a flow in delta: successive updates along the same direction compose
+   (z = exp(-delta) multiplies), and the update with 1 / z (delta -> -delta) undoes the one with z *)
+Theorem C18_esh_update_compose :
+  forall (ghat p : list Q) (z1 z2 : Q),
+    length ghat = length p -> qdot ghat ghat == 1 -> qdot p p == 1 -> ~ z1 == 0 -> ~ z2 == 0 ->
+    Forall2 Qeq (esh_update ghat (esh_update ghat p z1) z2) (esh_update ghat p (z1 * z2)).
+Proof. exact esh_update_compose. Qed.
+Print Assumptions C18_esh_update_compose.
+
+Theorem C18_esh_update_inverse :
+  forall (ghat p : list Q) (z : Q),
+    length ghat = length p -> qdot ghat ghat == 1 -> qdot p p == 1 -> ~ z == 0 ->
+    Forall2 Qeq (esh_update ghat (esh_update ghat p z) (/ z)) p.
+Proof. exact esh_update_inverse. Qed.
+Print Assumptions C18_esh_update_inverse.
+
+(* the microcanonical leapfrog step (half momentum update, drift, half momentum update) is
+   time-reversible: a backward step (drift -c, z -> 1 / z) from where a forward step arrived returns
+   to the starting point, componentwise up to Qeq.  n is the dimension: on positions of length n the
+   direction field is a unit vector of length n, z is non-zero, and both respect Qeq of positions. *)
+Theorem C18_micro_step_reversible :
+  forall (ghat_of : list Q -> list Q) (z_of : list Q -> Q) (c : Q) (n : nat),
+    (forall x, length x = n -> length (ghat_of x) = n) ->
+    (forall x, length x = n -> qdot (ghat_of x) (ghat_of x) == 1) ->
+    (forall x, length x = n -> ~ z_of x == 0) ->
+    (forall x y, length x = n -> Forall2 Qeq x y ->
+       Forall2 Qeq (ghat_of x) (ghat_of y) /\ z_of x == z_of y) ->
+    forall q p : list Q, length q = n -> length p = n -> qdot p p == 1 ->
+    let (q1, p1) := micro_step ghat_of z_of c true q p in
+    let (q2, p2) := micro_step ghat_of z_of c false q1 p1 in
+    Forall2 Qeq q2 q /\ Forall2 Qeq p2 p.
+Proof. exact micro_step_reversible. Qed.
+Print Assumptions C18_micro_step_reversible.
+
+(* ... and the same starting with the backward step *)
+Theorem C18_micro_step_reversible_bwd :
+  forall (ghat_of : list Q -> list Q) (z_of : list Q -> Q) (c : Q) (n : nat),
+    (forall x, length x = n -> length (ghat_of x) = n) ->
+    (forall x, length x = n -> qdot (ghat_of x) (ghat_of x) == 1) ->
+    (forall x, length x = n -> ~ z_of x == 0) ->
+    (forall x y, length x = n -> Forall2 Qeq x y ->
+       Forall2 Qeq (ghat_of x) (ghat_of y) /\ z_of x == z_of y) ->
+    forall q p : list Q, length q = n -> length p = n -> qdot p p == 1 ->
+    let (q1, p1) := micro_step ghat_of z_of c false q p in
+    let (q2, p2) := micro_step ghat_of z_of c true q1 p1 in
+    Forall2 Qeq q2 q /\ Forall2 Qeq p2 p.
+Proof. exact micro_step_reversible_bwd. Qed.
+Print Assumptions C18_micro_step_reversible_bwd.
+
+(* the hypotheses are satisfiable: ghat = (3/5, 4/5), p = (0, 1), z = 1/2 for the update ... *)
+Example C18_esh_update_inverse_nonvacuous :
+  let ghat := [3 # 5; 4 # 5] in let p := [0; 1] in let z := 1 # 2 in
+  length ghat = length p /\ qdot ghat ghat == 1 /\ qdot p p == 1 /\ ~ z == 0 /\
+  map Qred (esh_update ghat p z) = [57 # 185; 176 # 185] /\
+  map Qred (esh_update ghat (esh_update ghat p z) (/ z)) = p.
+Proof. exact esh_inverse_concrete. Qed.
+Print Assumptions C18_esh_update_inverse_nonvacuous.
+
+(* ... and a position-dependent direction field and z in dimension 2 for the leapfrog step, with a
+   concrete round trip *)
+Example C18_micro_step_reversible_nonvacuous :
+  ((forall x, length x = 2%nat -> length (ex_ghat x) = 2%nat) /\
+   (forall x, length x = 2%nat -> qdot (ex_ghat x) (ex_ghat x) == 1) /\
+   (forall x, length x = 2%nat -> ~ ex_z x == 0) /\
+   (forall x y, length x = 2%nat -> Forall2 Qeq x y ->
+      Forall2 Qeq (ex_ghat x) (ex_ghat y) /\ ex_z x == ex_z y)) /\
+  (let s := micro_step ex_ghat ex_z 3 true [-1 # 2; -2 # 1] [0; 1] in
+   let s' := micro_step ex_ghat ex_z 3 false (fst s) (snd s) in
+   map Qred (fst s) = [13 # 82; 38 # 41] /\
+   map Qred (fst s') = [-1 # 2; -2 # 1] /\ map Qred (snd s') = [0; 1]).
+Proof. exact (conj ex_micro_hyps micro_roundtrip_concrete). Qed.
+Print Assumptions C18_micro_step_reversible_nonvacuous.
+
 (* a draw without divergence takes exactly num_base full-size steps *)
 Theorem C18_steps_exact :
   forall (num_base mh : nat) (outs : list outcome),
